@@ -40,7 +40,8 @@ void aws_thread_increment_unjoined_count(void) {
 void aws_thread_decrement_unjoined_count(void) {
     aws_mutex_lock(&s_managed_thread_lock);
     --s_unjoined_thread_count;
-    aws_condition_variable_notify_one(&s_managed_thread_signal);
+    /* every thread waiting in aws_thread_join_all_managed() has to re-evaluate the count, not just one of them */
+    aws_condition_variable_notify_all(&s_managed_thread_signal);
     aws_mutex_unlock(&s_managed_thread_lock);
 }
 
